@@ -74,9 +74,21 @@ func namesOf(fn *ssa.Function) fnNames {
 		if v.Name() == "_" || v.Name() == "" {
 			continue
 		}
+		if v.Pkg() != nil && v.Parent() == v.Pkg().Scope() {
+			continue // a package-level variable, not a local
+		}
 		vs = append(vs, v)
 	}
-	sort.Slice(vs, func(i, j int) bool { return vs[i].Pos() < vs[j].Pos() })
+	sort.Slice(vs, func(i, j int) bool {
+		if vs[i].Pos() != vs[j].Pos() {
+			return vs[i].Pos() < vs[j].Pos()
+		}
+		ti, tj := types.TypeString(vs[i].Type(), nil), types.TypeString(vs[j].Type(), nil)
+		if ti != tj {
+			return ti < tj
+		}
+		return vs[i].Name() < vs[j].Name()
+	})
 	params := map[string]bool{}
 	for k := range seen {
 		params[k] = true
@@ -383,7 +395,7 @@ func cmdNames(args []string) int {
 			a, _ := json.Marshal(n)
 			r, _ := json.Marshal(rec[k])
 			if string(a) != string(r) {
-				fmt.Printf("names: %s differs from the record\n", k)
+				fmt.Printf("names: %s differs from the record\n  now: %s\n  rec: %s\n", k, a, r)
 				bad++
 			}
 		}
